@@ -17,7 +17,8 @@ THEOREMS = [P + t for t in ("flow_is_modelled", "inv_init", "inv_step", "inv_rea
                               "reimport_isolated", "foreign_node_refused",
                               "dinv_init", "dinv_step", "dinv_reachable", "dids_distinct_reachable", "dframe",
                               "ddelall_keeps_counters", "dclone_onto_existing_skips", "dclone_eq", "dhomed_reachable",
-                              "dclone_eq_reachable", "dclone_independent")]
+                              "dclone_eq_reachable", "dclone_independent", "failed_call_changes_nothing",
+                              "refused_calls_are_invisible")]
 TRUSTED_BASE = [
     "Model/Store.lean, Model/DStore.lean mirror NetworkXGraphStorage / NetworkXGraphStorageDisjoint / NetworkXPropertyGraph "
     "method by method (hand-written; checked differentially after every operation: reply, whole store by internal id, start_id)",
@@ -33,6 +34,13 @@ TRUSTED_BASE = [
     "locks are not modelled (C20): the harness replaces the stores' threading.Lock by a counting stand-in (lib_store.TolerantLock) "
     "so that the disjoint store's double release on a duplicate graph id (C20's defect) does not mask what an import did",
     "the disjoint model treats a missing dictionary entry and an empty graph alike (true of the code since /repo 7bd45c1)",
+    "a graph HANDLE is stateless in the models: Store.step / DStore.step take the graph id inside the operation and the store, "
+    "nothing else - whatever a NetworkXPropertyGraph object keeps between calls (caches, memos, anything left behind by a call "
+    "that failed) has no counterpart.  Checked, not assumed: the implementation side of the correspondence and of the oracle is "
+    "driven through handle OBJECTS kept for the whole history (lib_store.Backend handles = one object per graph id / two per "
+    "graph id drawn per call / a fresh one per call; the object clone_graph returns is kept too), failing calls included, and "
+    "the oracle asks every kept object the read-only requests again next to a fresh handle of the same id "
+    "(C04:<flavour>:handle:<request>:after-[failed-]<op>)",
 ]
 ASSUMPTIONS = [
     "an operation that writes the GraphID property (re-homing: update_node(s)_property / update_node_properties / initial "
@@ -40,6 +48,8 @@ ASSUMPTIONS = [
     "its target, every id it writes, the second graph of a merge (Lean: Op.affects; the general frame theorem and the oracle "
     "use exactly this set; re-homing a whole graph is C14's)",
     "single-threaded histories (C20 covers schedules)",
+    "a handle object stands for its graph id and nothing else (model: the id travels inside Op); a sound cache inside a handle "
+    "is invisible to the check, one that changes any reply or any graph is reported as a frame / drift violation",
 ]
 RULE = ("corpus first, then operation histories (<= 30 ops) over 2-4 graph ids and 4 node ids on both store flavours: add/delete node, add link, "
         "single/bulk/whole-graph property updates and unsets (5% of them writing GraphID / NodeID), import (node keys colliding "
@@ -49,7 +59,12 @@ RULE = ("corpus first, then operation histories (<= 30 ops) over 2-4 graph ids a
         "addressed with a node id that only the clone source still has); non-trivial = >= 2 graphs non-empty at some "
         "point and >= 1 failing call; distinct by op-kind sequence; plus all histories of depth 3 (quick) / 4 (thorough) over a "
         "16-operation alphabet on two graph ids (import, grown re-import, failing re-import, add/delete node, whole-graph update, "
-        "delete graph, clone, delete_all_graphs, foreign node id)")
+        "delete graph, clone, delete_all_graphs, foreign node id); every history is run through kept handle objects (cycle one / one / two / "
+        "fresh / one / two per graph id); every fifth random history opens with refused calls (a graph and its clone or twin made to "
+        "differ, merge_nodes refused for each reason - KeyError after both lookups, node missing on either side, other graph missing, "
+        "the graph itself - refused updates / unsets / deletes / add_node) followed by updates, relinks and deletes through the same "
+        "handle objects; plus all continuations of depth 3 (shared, one handle object per id) / 2 (two objects per id; disjoint) of a "
+        "graph-and-diverged-clone prefix over an 18-operation alphabet of refused and accepted merges and node operations")
 
 CORPUS = os.path.join(core.CORPUS_DIR, "C04")
 
@@ -71,21 +86,81 @@ def colliding_keys(rng):
     return keys
 
 
+HANDLE_CYCLE = ["one", "one", "two", "fresh", "one", "two"]
+
+
+def handle_mode(i):
+    """which handle objects serve history number i (lib_store.Backend `handles`): mostly ONE handle object per graph id
+    for the whole history (how the library is used: a graph object lives across calls), often two, now and then a new
+    object per call"""
+    return HANDLE_CYCLE[i % len(HANDLE_CYCLE)]
+
+
+def refused_scenario(rng, gids, nids):
+    """openings around calls that FAIL after they have looked things up (whatever a handle or the store remembers from a
+    refused call must not redirect later calls): two graphs sharing node ids (clone or twin import), a change that makes
+    them differ, a merge_nodes refused for each reason in turn (policy naming a property the other node lacks -> KeyError
+    after both lookups; other node missing; own node missing; other graph missing; the graph itself as other graph), refused
+    updates / unsets / deletes, then operations on the same graph ids"""
+    a, b = rng.sample(gids, 2)
+    n = rng.randint(2, 3)
+    x, y = nids[0], nids[1]
+    ig = {"nodes": [{L.NODE_ID: nids[i], L.CLASS: rng.choice(L.CLASSES), "Name": "v%d" % i, "p": "x"} for i in range(n)],
+          "edges": [[i, i + 1, {L.CLASS: rng.choice(L.RELS)}] for i in range(n - 1)]}
+    h = [["add_graph", a, ig], ["clone", a, b] if rng.random() < 0.7 else ["add_graph", b, ig]]
+    differ = [["unset_node_property", b, x, "p"], ["update_node_property", a, x, "q", "y"], ["unset_node_property", a, x, "Name"],
+              ["delete_node", b, y], ["update_nodes_property", a, "q", "x"]]
+    rng.shuffle(differ)
+    h += differ[:rng.randint(1, 3)]
+    ghost = "g9"
+    refusals = [["merge_nodes", a, x, b, {"p": rng.choice(["overwrite", "combine"])}],
+                ["merge_nodes", a, x, b, {"q": rng.choice(["overwrite", "combine"])}],
+                ["merge_nodes", b, x, a, {"Name": "overwrite", "q": "combine"}],
+                ["merge_nodes", a, y, b, None], ["merge_nodes", b, y, a, {"p": "discard"}],
+                ["merge_nodes", a, "n9", b, None], ["merge_nodes", a, x, ghost, None], ["merge_nodes", a, x, a, None],
+                ["update_node_property", a, x, L.CLASS, "Link"], ["update_node_property", a, x, "p", None],
+                ["unset_node_property", a, x, L.NODE_ID], ["unset_node_property", b, x, "zz"], ["delete_node", b, "n9"],
+                ["add_node", a, x, "Link", None], ["update_node_properties", b, x, {L.CLASS: "Link"}],
+                ["add_link", a, x, "has", "n9", None], ["get_node_properties", b, "n9"], ["find_matching_nodes", a, ghost]]
+    after = [["update_node_property", a, x, "Name", "renamed"], ["update_node_properties", a, x, {"Type": "y"}],
+             ["unset_node_property", a, x, "p"], ["delete_node", a, x], ["add_link", a, x, "has", y, {"q": "x"}],
+             ["update_node_property", b, x, "Name", "other"], ["delete_node", b, x], ["get_node_properties", a, x],
+             ["update_link_property", a, x, y, ig["edges"][0][2][L.CLASS], "q", "y"], ["add_node", a, "x0", "Link", None],
+             ["update_nodes_property", b, "p", "y"], ["get_node_properties", b, x], ["list_all_node_ids", a]]
+    for _ in range(rng.randint(1, 3)):
+        rng.shuffle(refusals)
+        rng.shuffle(after)
+        h += refusals[:rng.randint(1, 3)] + after[:rng.randint(1, 4)]
+    import copy
+    return copy.deepcopy(h)
+
+
 def histories(ctx, tag, n, length):
+    """[(flavours, history, handle mode)]"""
     rng = ctx.sub_rng(tag)
-    hs = [(c["flavours"], c["history"]) for c in load_corpus()]
+    rng2 = ctx.sub_rng(tag + "-refused")
+    hs = [(c["flavours"], c["history"], c.get("handles", "one")) for c in load_corpus()]
     for i in range(n):
-        hs.append((["shared", "disjoint"], L.gen_history(rng, rng.randint(6, length), ngraphs=rng.choice([2, 3, 3, 4]),
-                                                           scenario=0.35, merge=True, keys=0.05, delall=0.02)))
+        h = L.gen_history(rng, rng.randint(6, length), ngraphs=rng.choice([2, 3, 3, 4]),
+                          scenario=0.35, merge=True, keys=0.05, delall=0.02)
+        if i % 5 == 4:
+            # every fifth history opens with refused calls instead (own random stream: the other histories stay what they were)
+            gids = ["g1", "g2", "g3"]
+            pre = refused_scenario(rng2, gids, ["n1", "n2", "n3", "n4"])
+            sh = L.Shadow()
+            for r in pre:
+                sh.note(r)
+            h = pre + [sh.aim(rng2, L.gen_op(rng2, gids, ["n1", "n2", "n3", "n4"], merge=True), gids) for _ in range(rng2.randint(0, 8))]
+        hs.append((["shared", "disjoint"], h, handle_mode(i)))
     return hs
 
 
 # ------------------------------------------------------------------------------------------
 # correspondence
 
-def run_impl(flavour, h, seed):
+def run_impl(flavour, h, seed, handles="one"):
     import random
-    be = L.Backend(flavour)
+    be = L.Backend(flavour, handles=handles, hseed=seed)
     be.import_keys = colliding_keys(random.Random(seed))
     out = []
     for req in h:
@@ -98,7 +173,7 @@ def correspondence(ctx, res):
     hs = histories(ctx, "corr", ctx.scale(150, 1500), 30)
     for flavour, tagc in (("shared", "S"), ("disjoint", "D")):
         lines, meta = [], []
-        for hi, (flv, h) in enumerate(hs):
+        for hi, (flv, h, hm) in enumerate(hs):
             if flavour not in flv:
                 continue
             lines.append(json.dumps([tagc, "reset"]))
@@ -110,9 +185,11 @@ def correspondence(ctx, res):
                 meta.append((hi, k, "snap"))
         replies = LeanDriver("C04").run(lines)
         impl = {}
-        for hi, (flv, h) in enumerate(hs):
+        for hi, (flv, h, hm) in enumerate(hs):
             if flavour in flv:
-                impl[hi] = run_impl(flavour, h, hi)
+                # the model's handle is the graph id; the implementation is driven through handle OBJECTS kept across calls
+                impl[hi] = run_impl(flavour, h, hi, hm)
+                res.count("%s:handles:%s" % (tagc, hm))
         bad = set()
         for m, line in zip(meta, replies):
             if m is None:
@@ -134,9 +211,9 @@ def correspondence(ctx, res):
                 got = L.canon_raw(rep[1]) if rep[0] == "ok" else rep
             if canon(got) != canon(exp):
                 bad.add(hi)
-                res.disagreements.append({"case": {"flavour": flavour, "history": h[:k + 1]}, "at": [k, what],
-                                          "impl": exp, "model": got})
-        for hi, (flv, h) in enumerate(hs):
+                res.disagreements.append({"case": {"flavour": flavour, "history": h[:k + 1], "handles": hs[hi][2], "seed": hi},
+                                          "at": [k, what], "impl": exp, "model": got})
+        for hi, (flv, h, hm) in enumerate(hs):
             if flavour in flv and nontrivial(impl[hi]):
                 res.nontrivial.add(flavour + L.kind_seq(h))
     res.sample({"history": hs[-1][1][:6], "note": "each request is followed by a whole-store snapshot on both sides"})
@@ -175,15 +252,25 @@ def keeps_graph_id(req):
     return op != "merge_nodes"
 
 
-def check_history(flavour, h, res, seed=0):
+DRIFT_NIDS = ["n1", "n2", "n3", "n4"]
+
+
+def drift_queries(g):
+    """read-only requests a kept handle object must answer like a fresh handle of the same graph id"""
+    return [["list_all_node_ids", g]] + [["get_node_properties", g, x] for x in DRIFT_NIDS] + [["get_link_properties", g, "n1", "n2"]]
+
+
+def check_history(flavour, h, res, seed=0, handles="one", probe="every"):
     import random
-    be = L.Backend(flavour)
+    be = L.Backend(flavour, handles=handles, hseed=seed)
     be.import_keys = colliding_keys(random.Random(seed))
     universe = set(r[1] for r in h) | set(r[2] for r in h if r[0] == "clone") | {"g1", "g2", "g3", "g4", "zz"}
     clones = []        # (src, dst, step) pairs for the evidence histogram
+    drifted = False
 
     def bad(sig, what, k, **kw):
-        res.violation("C04:%s:%s" % (flavour, sig), what, {"flavour": flavour, "history": h[:k + 1], "seed": seed}, **kw)
+        res.violation("C04:%s:%s" % (flavour, sig), what, {"flavour": flavour, "history": h[:k + 1], "seed": seed, "handles": handles},
+                      **kw)
 
     for k, req in enumerate(h):
         op, tgt = req[0], L.target_of(req)
@@ -198,6 +285,18 @@ def check_history(flavour, h, res, seed=0):
         rep = be.apply(req)
         after = {g: be.content(g) for g in universe | be.graph_ids()}
         res.count("%s:%s:%s" % (flavour, op, rep[0] if rep[0] == "ok" else rep[1]))
+        # (0) the observable content of a graph is what the store holds for its id, whichever handle object is asked: a handle
+        #     kept across calls (failing ones included) answers every read-only request like a handle made just now
+        #     (looked at after every call for the graphs the call names, for every kept handle after every 4th call, after
+        #     a failing call and at the end; reported where it first shows)
+        if handles != "fresh" and not drifted and (probe == "every" or k == len(h) - 1):
+            full = k % 4 == 3 or k == len(h) - 1 or rep[0] == "err"
+            named = None if full or aff is None else (aff | {req[1]})
+            for g, i, q, kept, fresh in be.handle_drift(drift_queries, only=named)[:1]:
+                drifted = True
+                bad("handle:%s:%s" % (q[0], "after-failed-%s" % op if rep[0] == "err" else "after-%s" % op),
+                    "a handle object of graph %s kept across calls answers %s differently from a fresh handle of the same graph "
+                    "after %s %s" % (g, q, op, "failed" if rep[0] == "err" else "returned"), k, expected=fresh, observed=kept)
         # (1) frame: every graph the operation is not addressed to is untouched, success or failure
         for g in universe:
             if aff is not None and g not in aff and after[g] != before[g]:
@@ -266,14 +365,37 @@ def small_alphabet():
     return A
 
 
+HANDLE_PREFIX = [["add_graph", "g1", {"nodes": [{"NodeID": "n1", "Class": "NetworkNode", "Name": "a", "p": "x"}, {"NodeID": "n2", "Class": "Link"}],
+                                       "edges": [[0, 1, {"Class": "has"}]]}],
+                 ["clone", "g1", "g2"], ["unset_node_property", "g2", "n1", "p"]]
+
+
+def handle_alphabet():
+    """operations for the small-scope enumeration behind HANDLE_PREFIX (a graph, its clone, one property dropped in the
+    clone): merges refused for each reason and merges that go through, refused and accepted updates / unsets / deletes /
+    re-creations of the shared node id on both graphs, the clone deleted and made again"""
+    A = [["merge_nodes", "g1", "n1", "g2", {"p": "overwrite"}],      # KeyError after both lookups
+         ["merge_nodes", "g2", "n1", "g1", {"Name": "combine"}],     # goes through
+         ["merge_nodes", "g1", "n2", "g2", None],                    # goes through
+         ["merge_nodes", "g1", "n3", "g2", None],                    # own node missing
+         ["merge_nodes", "g1", "n1", "g9", None],                    # other graph missing
+         ["update_node_property", "g1", "n1", "p", None],            # refused (assertion)
+         ["delete_graph", "g2"], ["clone", "g1", "g2"]]
+    for g in ("g1", "g2"):
+        A += [["update_node_property", g, "n1", "q", "y"], ["unset_node_property", g, "n1", "q"], ["delete_node", g, "n1"],
+              ["add_node", g, "n1", "Link", {"q": "x"}], ["add_link", g, "n1", "connects", "n2", {"q": "x"}]]
+    return A
+
+
 def oracle(ctx, res, n=None, length=30, depth=None):
     import copy
     import itertools
     hs = histories(ctx, "oracle", n or ctx.scale(250, 2500), length)
-    for hi, (flv, h) in enumerate(hs):
+    for hi, (flv, h, hm) in enumerate(hs):
         for flavour in flv:
             res.evaluations += 1
-            be, clones = check_history(flavour, h, res, seed=hi)
+            res.count("%s:handles:%s" % (flavour, hm))
+            be, clones = check_history(flavour, h, res, seed=hi, handles=hm)
             if clones:
                 res.count("%s:histories-with-clone" % flavour)
             res.nontrivial.add(flavour + L.kind_seq(h))
@@ -285,10 +407,22 @@ def oracle(ctx, res, n=None, length=30, depth=None):
     for tail in itertools.product(A, repeat=depth):
         h = [copy.deepcopy(seed_two)] + [copy.deepcopy(r) for r in tail]
         for flavour in ("shared", "disjoint"):
-            check_history(flavour, h, res, seed=cnt)
+            check_history(flavour, h, res, seed=cnt, handles="one", probe="last")
         cnt += 1
     res.evaluations += 2 * cnt
     res.count("exhaustive-depth-%d" % depth, 2 * cnt)
+    # handle objects: every continuation of HANDLE_PREFIX over the 18 operations of handle_alphabet(), one handle object per
+    # graph id for the whole history (depth 3 on the shared store, where merge_nodes exists; depth 2 with two handle objects
+    # per graph id and on the disjoint store)
+    B = handle_alphabet()
+    cnt2 = 0
+    for d, flavour, hm in ((depth, "shared", "one"), (depth - 1, "shared", "two"), (depth - 1, "disjoint", "one")):
+        for tail in itertools.product(B, repeat=d):
+            h = copy.deepcopy(HANDLE_PREFIX) + [copy.deepcopy(r) for r in tail]
+            check_history(flavour, h, res, seed=cnt2, handles=hm, probe="last")
+            cnt2 += 1
+    res.evaluations += cnt2
+    res.count("exhaustive-handles-depth-%d-over-%d-ops" % (depth, len(B)), cnt2)
     res.sample({"flavours": hs[-1][0], "history": hs[-1][1][:5],
                 "checks": "frame on every non-addressed graph, internal ids, import/clone content"})
 
@@ -300,7 +434,7 @@ def search(ctx, res, broken):
 def replay(ctx, payload):
     r = core.Result()
     c = payload["case"]
-    check_history(c["flavour"], c["history"], r, seed=c.get("seed", 0))
+    check_history(c["flavour"], c["history"], r, seed=c.get("seed", 0), handles=c.get("handles", "one"))
     for v in r.violations:
         print("  ", v["signature"], v["what"])
     return bool(r.violations)
